@@ -16,9 +16,14 @@ VARIABLE c
 vars == <<c>>
 
 Positions == {"elem_name", "attr_name", "type_name", "op_name", "part_name", "service_name"}
-Sources == Positions \cup {"enum", "facet", "doc_simple", "doc_complex", "uri", "address", "action"}
+\* address / action: the payload alone, inside a urn: (a URL parser keeps quotes and backslashes of a non-hierarchical
+\* scheme) and in the query and fragment of an http URL
+UrlVariants == {"address_urn", "address_query", "action_urn", "action_query"}
+Sources == Positions \cup {"enum", "facet", "doc_simple", "doc_complex", "uri", "address", "action"} \cup UrlVariants
 SrcOf(p) == CASE p \in Positions -> "name" [] p = "enum" -> "enum" [] p = "facet" -> "facet" [] p \in {"doc_simple", "doc_complex"} -> "doc"
-              [] p = "uri" -> "uri" [] p = "address" -> "address" [] OTHER -> "action"
+              [] p = "uri" -> "uri" [] p \in {"address", "address_urn", "address_query"} -> "address" [] OTHER -> "action"
+AtBase(p) == CASE p \in {"address_urn", "address_query"} -> "address" [] p \in {"action_urn", "action_query"} -> "action" [] OTHER -> p
+Wrap(p) == CASE p \in {"address_urn", "action_urn"} -> "urn+" [] p \in {"address_query", "action_query"} -> "query+" [] OTHER -> ""
 
 StrictKw == {"as", "break", "const", "continue", "crate", "else", "enum", "extern", "false", "fn", "for", "if", "impl", "in", "let", "loop",
              "match", "mod", "move", "mut", "pub", "ref", "return", "self", "Self", "static", "struct", "super", "trait", "true", "type",
@@ -33,7 +38,7 @@ Space == IF Slice = "payload" THEN {[kind |-> "payload", at |-> p, cls |-> k] : 
 
 \* the text placed at position p in case x (a vocabulary id), or the harmless default
 PayId(k) == "pay_" \o k
-TextAt(x, p, dflt) == IF x.at = p THEN (IF x.kind = "payload" THEN PayId(x.cls) ELSE x.kw) ELSE dflt
+TextAt(x, p, dflt) == IF AtBase(x.at) = p THEN Wrap(x.at) \o (IF x.kind = "payload" THEN PayId(x.cls) ELSE x.kw) ELSE dflt
 
 Str == [k |-> "builtin", n |-> "string"]
 Int == [k |-> "builtin", n |-> "int"]
@@ -62,10 +67,10 @@ Wsdl(x) == [name |-> "f.wsdl", kind |-> "wsdl", tns |-> TextAt(x, "uri", "Uplain
                         input |-> [msg |-> "DoItIn", parts |-> "parameters", headers |-> << [msg |-> "DoItIn", part |-> TextAt(x, "part_name", "auth")] >>],
                         output |-> [msg |-> "DoItOut", parts |-> "parameters", headers |-> <<>>]] >>]]
 
-IsWsdl(x) == x.at \in {"op_name", "part_name", "service_name", "address", "action"}
+IsWsdl(x) == AtBase(x.at) \in {"op_name", "part_name", "service_name", "address", "action"}
 CaseOf(x) == [prop |-> "C14", drv |-> "lex", start |-> IF IsWsdl(x) THEN "f.wsdl" ELSE "f.xsd",
               files |-> IF IsWsdl(x) THEN <<Wsdl(x)>> ELSE <<Xsd(x)>>, shape |-> x,
-              probes |-> IF x.kind = "payload" THEN << [site |-> x.at, cls |-> x.cls, src |-> SrcOf(x.at), text |-> PayId(x.cls),
+              probes |-> IF x.kind = "payload" THEN << [site |-> x.at, cls |-> x.cls, src |-> SrcOf(x.at), text |-> Wrap(x.at) \o PayId(x.cls),
                                                         marker |-> IF x.cls \in NumClasses THEN "31337" ELSE "ZVMK"] >> ELSE <<>>]
 
 MCInit == c \in Space
